@@ -55,6 +55,21 @@ fn uri_encode_string(input: &str, encode_slash: bool) -> String {
     output
 }
 
+/// appends a canonical header value: trimmed, sequential spaces converted to a single space
+fn push_canonical_header_value(ans: &mut String, value: &str) {
+    let mut first = true;
+    for part in value.trim().split(' ') {
+        if part.is_empty() {
+            continue;
+        }
+        if !first {
+            ans.push(' ');
+        }
+        ans.push_str(part);
+        first = false;
+    }
+}
+
 /// is skipped header
 fn is_skipped_header(header: &str) -> bool {
     header == "authorization"
@@ -146,7 +161,7 @@ pub fn create_canonical_request(
             }
             ans.push_str(name);
             ans.push(':');
-            ans.push_str(value.trim());
+            push_canonical_header_value(&mut ans, value);
             ans.push('\n');
         }
         ans.push('\n');
@@ -358,7 +373,7 @@ pub fn create_presigned_canonical_request(
             }
             ans.push_str(name);
             ans.push(':');
-            ans.push_str(value.trim());
+            push_canonical_header_value(&mut ans, value);
             ans.push('\n');
         }
         ans.push('\n');
